@@ -5,6 +5,7 @@
 mod api;
 mod build;
 mod coding;
+mod d_carry;
 mod d_enc;
 mod d_io;
 mod d_lzma;
@@ -201,6 +202,9 @@ fn main() {
             let par = d_rcsmall::Par { w: a.num("W", 9) as u32, b: a.num("B", 3) as u32, p: a.num("P", 4) as u32, m: a.num("M", 2) as u32 };
             d_rcsmall::run(&prop, seed, &a.str("export", ""), par, a.num("nctx", 2) as usize, &mut rep);
             finish(rep, &a);
+        }
+        "carrysearch" => {
+            d_carry::search(a.num("seconds", 600), a.num("threads", 12) as usize, a.num("len", 700) as usize, &a.str("out-file", "/verif/corpus/enc_edge_inputs.json"));
         }
         "xzlib" => {
             let lib = d_xz::payload_lib();
